@@ -79,12 +79,17 @@ namespace TrRouting
 
               // A trip must have a time for at least two stops, no more times than its path has stops,
               // and one departure time and one boarding/unboarding flag per arrival time
-              const unsigned long tripNodeTimesCount = capnpTrip.getNodeArrivalTimesSeconds().size();
+              // (each list is read from the message once per trip: every read counts against Cap'n Proto's traversal limit)
+              auto arrivalTimesSeconds   = capnpTrip.getNodeArrivalTimesSeconds();
+              auto departureTimesSeconds = capnpTrip.getNodeDepartureTimesSeconds();
+              auto canBoards             = capnpTrip.getNodesCanBoard();
+              auto canUnboards           = capnpTrip.getNodesCanUnboard();
+              const unsigned long tripNodeTimesCount = arrivalTimesSeconds.size();
               if (tripNodeTimesCount < 2
                   || tripNodeTimesCount > path.nodesRef.size()
-                  || capnpTrip.getNodeDepartureTimesSeconds().size() < tripNodeTimesCount
-                  || capnpTrip.getNodesCanBoard().size() < tripNodeTimesCount
-                  || capnpTrip.getNodesCanUnboard().size() < tripNodeTimesCount)
+                  || departureTimesSeconds.size() < tripNodeTimesCount
+                  || canBoards.size() < tripNodeTimesCount
+                  || canUnboards.size() < tripNodeTimesCount)
               {
                 spdlog::error("Invalid trip {} in file {}: {} stop times for a path of {} stops, ignoring it", tripUuidStr, cacheFilePath, tripNodeTimesCount, path.nodesRef.size());
                 continue;
@@ -94,7 +99,7 @@ namespace TrRouting
               bool tripGoesBackInTime = false;
               for (unsigned long nodeTimeI = 0; nodeTimeI + 1 < tripNodeTimesCount; nodeTimeI++)
               {
-                if (capnpTrip.getNodeArrivalTimesSeconds()[nodeTimeI + 1] < capnpTrip.getNodeDepartureTimesSeconds()[nodeTimeI])
+                if (arrivalTimesSeconds[nodeTimeI + 1] < departureTimesSeconds[nodeTimeI])
                 {
                   tripGoesBackInTime = true;
                   break;
@@ -121,11 +126,7 @@ namespace TrRouting
               // TODO This should probably be done in the Trip constructor (setting the back reference)
               path.tripsRef.push_back(trip);
 
-              nodeTimesCount             = capnpTrip.getNodeArrivalTimesSeconds().size();
-              auto arrivalTimesSeconds   = capnpTrip.getNodeArrivalTimesSeconds();
-              auto departureTimesSeconds = capnpTrip.getNodeDepartureTimesSeconds();
-              auto canBoards             = capnpTrip.getNodesCanBoard();
-              auto canUnboards           = capnpTrip.getNodesCanUnboard();
+              nodeTimesCount             = tripNodeTimesCount;
               trip.connectionDepartureTimes.resize(nodeTimesCount);
               // nodeTimesCount - 1, since we process node pairs, we have to stop and the second from last
               for (unsigned long nodeTimeI = 0; nodeTimeI < nodeTimesCount - 1; nodeTimeI++)
